@@ -897,6 +897,28 @@ def gen_headkey_case(rng):
     return {"loop": "prio", "nlocks": 3, "nevents": 4, "workers": ws, "env": env}
 
 
+def gen_woken_holder_case(rng):
+    """Directed shape for C11, priority loop: a holder that has just been handed another lock but has
+    not run yet.  H holds L1 and is queued on L2, held by the very urgent R.  In one instant R is let go
+    (it releases L2: H is woken, runnable, `_waiting_on` still set), the urgent W is released towards L1
+    and a medium task M becomes runnable.  W's priority must reach H's ready-queue entry at once, so that
+    H runs before M."""
+    mk = lambda pri, script: {"kind": "P", "pri": pri, "script": script}  # noqa: E731
+    pr = rng.choice(["-20", "-15", "-12"])
+    pw = rng.choice(["-5", "HIGH", "-4"])
+    pm = rng.choice(["0", "NORMAL", "-1", "1", "1/2"])
+    ph = rng.choice(["5", "LOW", "3", "7"])
+    l1, l2 = rng.choice([(0, 1), (0, 2), (1, 2)])
+    R = mk(pr, [["acq", l2], ["wait", 0], ["rel"]] + [["sleep"]] * rng.randint(0, 1))
+    H = mk(ph, [["acq", l1], ["acq", l2]] + [["sleep"]] * rng.randint(0, 1) + [["rel"], ["rel"]])
+    W = mk(pw, [["wait", 1], ["acq", l1], ["rel"]])
+    M = mk(pm, [["wait", 2]] + [["sleep"]] * rng.randint(0, 2))
+    ws = [R, H, W, M]
+    rng.shuffle(ws)
+    env = [[4, "set", e] for e in rng.sample([0, 1, 2], 3)]
+    return {"loop": "prio", "nlocks": 3, "nevents": 3, "workers": ws, "env": env}
+
+
 def gen_fallback_case(rng):
     """Directed shape for C11 ("falls back when they stop waiting"), priority loop, one cancel:
     W waits for L0 held by B, B is queued on L1 held by C (chain of length 2); independently W2 waits
